@@ -3,13 +3,39 @@ import json, os
 from .. import core
 
 PROOF = "Props/C11.v"
-RUN_FILES = ["Run/CodeMapRun.v", "Run/LebRun.v", "Run/FrameRun.v"]
+RUN_FILES = ["Run/CodeMapRun.v", "Run/LebRun.v", "Run/FrameRun.v", "Run/BytesRun.v"]
 CORR_NAME = "CodeMap model (over parseM/emitM and the Emit visitor model) vs. the CodeTransform real walrus hands to a recording custom section"
 ASSUMPTIONS = [
     "Model/CodeMap.v is a hand-written model of the tail of ModuleFunctions::emit (BTreeMap fill, function ranges, code_section_start); positions inside a body come from Model/EmitFn.v (checked by C03/C15); the models are tied to the code by comparing the CodeTransform observed through CustomSection::apply_code_transform on every case (this run)",
-    "byte lengths of instructions are wasm-encoder's: the model runs with unit lengths and the harness translates every reported absolute offset into (function, operator ordinal) using an independent decode of the output; offsets that are not the start of an operator cannot be translated and are reported",
+    "byte lengths of instructions: Model/Bytes.v models the binary encoding of all 517 operators and the control instructions (opcode table generated from what wasmparser reads, translator/bytes), proves reader . writer = id and that its instruction lengths are a legitimate instance of the length parameter, and is compared with the real bytes and offsets of every body in this run; the CodeMap replay itself still runs with unit lengths and the harness translates every reported absolute offset into (function, operator ordinal) using an independent decode of the output; offsets that are not the start of an operator cannot be translated and are reported",
     "the layout of a code section (count, then size-prefixed bodies) and LEB128 lengths are modelled (leb_len); LEB128 itself is modelled byte by byte (Model/Leb.v: round trip, prefix-freeness, length = leb_len proved in Proofs/Leb.v) and compared with wasm-encoder's bytes and wasmparser's reader on every group-count boundary and random values (unsigned and signed) in this run",
 ]
+
+
+def bytes_run(ctx, thorough, search):
+    """byte-level encoding of function bodies (Model/Bytes.v): every body of every input module and of walrus's output, decoded by wasmparser
+    (locals, operators, operator offsets) vs. the model's writer and reader"""
+    out = os.path.join(ctx.work, ("search" if search else "corr") + "_bytes")
+    rc, o, dt = core.sh([core.vh(), "bytes", out, str(ctx.seed + (57 if search else 0)), str(300 if thorough else 30)], timeout=2400)
+    if rc != 0:
+        return [{"error": "bytes harness failed", "out": o[-600:]}], {}
+    meta = json.load(open(os.path.join(out, "meta.json")))
+    results, errors = core.coq_eval(out, "cases_bytes_*.v")
+    dis = [{"file": f, "coq_error": m[-400:]} for f, m in errors.items()]
+    names = {91: "the model's writer does not reproduce the real bytes of the body", 92: "the model's reader does not give back the decoded locals / operators", 93: "operator outside the covered subset",
+             94: "the length of an instruction differs from the distance between real operator offsets", 95: "an immediate of a real body is outside the range the model's well-formedness predicate allows"}
+    n, hist = 0, {}
+    for f, codes in results.items():
+        n += len(codes)
+        for i, c in enumerate(codes):
+            hist[c] = hist.get(c, 0) + 1
+            if c not in (0, 93):
+                dis.append({"code": c, "meaning": names.get(c, "?"), "file": os.path.basename(f), "case_index": i})
+    cov = {k: meta.get(k) for k in ("modules", "input_bodies", "output_bodies", "operators", "bodies_too_large", "bodies_with_unmodelled_operator_terms", "unmodelled_operator_terms", "walrus_failures", "shards")}
+    cov["evaluated_in_coq"] = n
+    cov["codes"] = {str(k): v for k, v in sorted(hist.items())}
+    cov["rule"] = "every function body (up to ~600 bytes) of the corpus, the fixtures, generated modules (attribute, whole-universe, integer-core and dense boundary-immediate bodies) and an operator x boundary-immediate sweep, and of walrus's output for each (after GC for some): for INPUT bodies the model's reader must give wasmparser's locals, operators and operator offsets (padded LEB128 allowed); for OUTPUT bodies the model's writer must in addition reproduce the bytes and every instruction length"
+    return dis, cov
 
 
 def correspondence(ctx, thorough, search, prop="C11", sub=""):
@@ -42,4 +68,8 @@ def correspondence(ctx, thorough, search, prop="C11", sub=""):
         d2, _, c2 = frame_run(ctx, thorough, search)
         dis += d2
         cov["framing"] = c2
+        d3, c3 = bytes_run(ctx, thorough, search)
+        dis += d3
+        cov["body_bytes"] = c3
+        cov["traces_validated_against_impl"] += c3.get("evaluated_in_coq", 0)
     return {"disagreements": dis, "oracle_violations": ov, "coverage": cov}
